@@ -68,7 +68,7 @@ func genScan(rng *rand.Rand, tier string, emit func(string)) {
 			tab := tabs[rng.Intn(ntab)]
 			cnt := 1 + rng.Intn(6)
 			if rng.Intn(8) == 0 {
-				cnt = []int{0, 7, 30, 100, 5001}[rng.Intn(5)] // COUNT from 1 up, and 0 = default; a negative COUNT makes the handler index an empty page (recovered per connection)
+				cnt = []int{0, 7, 30, 100, 5001}[rng.Intn(5)] // COUNT from 1 up, and 0 = default
 			}
 			rev := rng.Intn(2)
 			start := ""
@@ -78,6 +78,14 @@ func genScan(rng *rand.Rand, tier string, emit func(string)) {
 				start = names[rng.Intn(len(names))]
 			}
 			if rng.Intn(3) == 0 {
+				if rng.Intn(10) == 0 {
+					// a negative COUNT must be refused (it made the handler index an empty page with -1: inside the merge
+					// goroutines of the server that is a process crash; fix listed in DESIGN §0.2); empty tables included
+					cnt = -1 - rng.Intn(3)
+					if rng.Intn(2) == 0 {
+						tab = "zzempty"
+					}
+				}
 				emit(fmt.Sprintf("adv %s %s %d %d", T, hexs([]byte(tab+":"+start)), cnt, rev))
 			} else {
 				emit(fmt.Sprintf("full %s %s %s %d %d", T, hexs([]byte(tab)), hexs([]byte(start)), cnt, rev))
@@ -99,6 +107,9 @@ func genScan(rng *rand.Rand, tier string, emit func(string)) {
 			op := "cfull"
 			if rng.Intn(3) == 0 {
 				op = "cscan"
+				if rng.Intn(10) == 0 {
+					cnt = -1 - rng.Intn(3) // refused as well
+				}
 			}
 			emit(fmt.Sprintf("%s %s %s %d %d", op, ck, hexs([]byte(start)), cnt, rev))
 		}
